@@ -3,7 +3,9 @@
 (* API-level histories over a small pool of model instances (properties      *)
 (* C10, C11): New(i,c) constructs instance i from configuration c, Step(i,k)  *)
 (* advances it by k days (initialising it on the first call), Finish(i) runs  *)
-(* it to termination.  Operations on different instances interleave           *)
+(* it to termination, Reject(i,c) is a failed attempt to build an instance     *)
+(* from an invalid configuration.  Operations on different instances          *)
+(* interleave                                                                *)
 (* arbitrarily.  The specification's statement: the observable result of      *)
 (* instance i - modelled as obs[i] = <<configuration, days simulated>> - is a  *)
 (* function of its OWN configuration and call history only (Isolation), and   *)
@@ -16,7 +18,8 @@
 (***************************************************************************)
 EXTENDS Integers, Sequences, FiniteSets, Json, TLC
 
-CONSTANTS Inst, Cfgs, StepSizes, MaxOps, Horizon   \* Horizon: days after which an instance is finished
+CONSTANTS Inst, Cfgs, StepSizes, MaxOps, Horizon,   \* Horizon: days after which an instance is finished
+          BadCfgs                                    \* configurations the model rejects (construction / initialisation raises)
 
 VARIABLES st, hist
 vars == <<st, hist>>
@@ -35,8 +38,15 @@ Finish(i) == /\ st[i].phase \in {"new", "running"}
              /\ st' = [st EXCEPT ![i] = [@ EXCEPT !.days = Horizon, !.phase = "done"]]
              /\ hist' = Append(hist, [op |-> "finish", i |-> i])
 
+\* an attempt to build instance i from a configuration the model rejects: the attempt raises, nothing exists afterwards - and nothing
+\* may be left behind that another instance could observe (class-level defaults, module-level tables)
+Reject(i, c) == /\ st[i].phase = "none"
+                /\ UNCHANGED st
+                /\ hist' = Append(hist, [op |-> "reject", i |-> i, c |-> c])
+
 Next == /\ Len(hist) < MaxOps
         /\ \/ \E i \in Inst, c \in Cfgs : New(i, c)
+           \/ \E i \in Inst, c \in BadCfgs : Reject(i, c)
            \/ \E i \in Inst, k \in StepSizes : Step(i, k)
            \/ \E i \in Inst : Finish(i)
 Spec == Init /\ [][Next]_vars
@@ -44,7 +54,7 @@ Spec == Init /\ [][Next]_vars
 \* the observable result of an instance
 Obs(i) == <<st[i].cfg, st[i].days>>
 \* own history of instance i: the operations that name it
-Own(i) == SelectSeq(hist, LAMBDA o : o.i = i)
+Own(i) == SelectSeq(hist, LAMBDA o : o.i = i /\ o.op # "reject")
 RECURSIVE Days(_, _)
 Days(h, n) == IF n = 0 THEN 0
               ELSE LET o == h[n] p == Days(h, n - 1)
